@@ -474,28 +474,46 @@ CALL_OF = {"rx": "receive_datagram", "tx": "datagrams_to_send", "gt": "get_timer
 
 
 def project(sim, start, init, post):
-    """Raw run log from index `start` -> lines for TraceConnTotal (field selection only)."""
+    """Raw run log from index `start` -> lines for TraceConnTotal (field selection only).  The API calls the
+    driver makes in one go on one endpoint (receive_datagram or handle_timer, then next_event..., datagrams_to_send,
+    get_timer) form one line: parallel lists `calls` / `raised` / `term`."""
     role_of = {"c": "client", "s": "server"}
     out = [init]
     n_raised_logged = 0
     cur = init.get("sig", "")
+    grp = None
+
+    def flush():
+        if grp is not None:
+            out.append(grp)
     for e in sim.log[start:]:
         k = e["k"]
         if k == "inject":
             cur = e["tag"]
             continue
         if k not in CALL_OF:
+            if k == "api":
+                flush()
+                grp = None
             continue
         raised = e.get("raised", "") or ""
         if raised:
             n_raised_logged += 1
-        out.append({"ev": "call", "role": role_of[e["ep"]], "call": CALL_OF[k], "raised": raised,
-                    "hostile": bool(k == "rx" and e.get("forged")), "term": bool(k == "ev" and e.get("cls") == "ConnectionTerminated"),
-                    "cls": cur if init["lvl"] == "v" else ""})
+        role = role_of[e["ep"]]
+        if grp is None or k in ("rx", "timer") or grp["role"] != role or len(grp["calls"]) >= 24:
+            flush()
+            grp = {"ev": "calls", "role": role, "calls": [], "raised": [], "term": [], "hostile": False,
+                   "cls": cur if init["lvl"] == "v" else "", "unlogged": False}
+        grp["calls"].append(CALL_OF[k])
+        grp["raised"].append(raised)
+        grp["term"].append(bool(k == "ev" and e.get("cls") == "ConnectionTerminated"))
+        grp["hostile"] = grp["hostile"] or bool(k == "rx" and e.get("forged"))
+    flush()
     # exceptions the simulator caught in calls it does not log (get_timer inside timer_value)
     extra = [r for r in sim.raised[post.get("raised0", 0):] if r[1] in CALL_OF.values()]
     for ep, what, r in extra[n_raised_logged:][:3]:
-        out.append({"ev": "call", "role": role_of[ep], "call": what, "raised": r, "hostile": False, "term": False, "cls": cur if init["lvl"] == "v" else ""})
+        out.append({"ev": "calls", "role": role_of[ep], "calls": [what], "raised": [r], "term": [False], "hostile": False,
+                    "cls": cur if init["lvl"] == "v" else "", "unlogged": True})
     end = {"ev": "end"}
     end.update({k: v for k, v in post.items() if k != "raised0"})
     out.append(end)
@@ -538,7 +556,7 @@ def run_job(job):
         lines = project(s, start, init, post)
         summary = {"outcome": "Close" if closed else ("Progress" if (ctx.accepted or moved or events) else "Ignored"),
                    "code": code, "hostile": ctx.hostile_dgrams, "raised": [list(r) for r in s.raised[raised0:][:3]],
-                   "mid": mid, "n": len(lines)}
+                   "mid": mid, "n": sum(len(ln["calls"]) for ln in lines if ln["ev"] == "calls")}
         return {"lines": lines, "summary": summary}
     finally:
         s.close()
